@@ -726,6 +726,15 @@ theorem detach_isolation (s : Server) (i j : Nat) (b : Bool) (h : j ≠ i) :
     SessEq (getObj s j) (getObj (detach s i b).1 j) :=
   (detach_frame s i b).other j h
 
+/-- case split on an `if` producing a handler result, without `split` (whose `simp` pass runs out of steps on the
+whole `processPublish` body) -/
+theorem Frame.ite_res {i : Nat} {s : Server} {p : Prop} [Decidable p] {a b : HRes}
+    (ha : p → Frame i s a.1 a.2.1) (hb : ¬ p → Frame i s b.1 b.2.1) :
+    Frame i s (if p then a else b).1 (if p then a else b).2.1 := by
+  by_cases h : p
+  · rw [if_pos h]; exact ha h
+  · rw [if_neg h]; exact hb h
+
 theorem processPublish_frame (s : Server) (i : Nat) (qos : Nat) (dup retain : Bool) (id : Nat) (topic payload : Str)
     (msgExpiry : Nat) (alias : Option Nat) :
     Frame i s (processPublish s i qos dup retain id topic payload msgExpiry alias).1
@@ -754,16 +763,14 @@ theorem processPublish_frame (s : Server) (i : Nat) (qos : Nat) (dup retain : Bo
         rw [heq] at this
         exact this
       · rw [ackRes_fst]; exact Frame.refl i s _
-  split
-  · exact early _
-  · split
+  refine Frame.ite_res (fun _ => early _) (fun _ => ?_)
+  · refine Frame.ite_res (fun _ => ?_) (fun _ => ?_)
     · split
       rename_i s' o heq
       have := disconnectClient_frame s i 0x93
       rw [heq] at this
       exact this
-    · split
-      · exact early _
+    · refine Frame.ite_res (fun _ => early _) (fun _ => ?_)
       · extract_lets +onlyGivenNames e pk pre
         have hpre : ∀ r, pre = some r → r.1 = s := by
           intro r h
@@ -807,8 +814,17 @@ theorem processPublish_frame (s : Server) (i : Nat) (qos : Nat) (dup retain : Bo
               · cases heq; exact OwnEq.refl _
             · cases heq; exact OwnEq.refl _
           clear heq
-          extract_lets +onlyGivenNames s2 pk3 mode
+          extract_lets +onlyGivenNames s2
           have hs2 : Frame i s s2 [] := hs1.setOwn c2 (ho1.trans hc2)
+          split
+          · split
+            rename_i s' o heq
+            have := disconnectClient_frame s2 i 0x82
+            rw [heq] at this
+            have h3 := hs2.trans this
+            rw [List.nil_append] at h3
+            exact h3
+          extract_lets +onlyGivenNames pk3 mode
           split
           · exact hs2.nil _
           · split
